@@ -45,7 +45,7 @@ P = 'C09'
 BUDGETS = {'C09': (75, 1200, 40)}
 LEVELS = {'C09': 'exploration'}
 ALLOWED = (ServerError, ProtocolError, SSLVerificationError, NetworkError)
-PROBES = {'C09': ['layer.http', 'layer.web', 'layer.robots', 'layer.ftp', 'layer.crawl', 'robots_redirected_to_other_origin', 'crawl_with_warc', 'crawl_post_data', 'crawl_ftp', 'ftp_symlinks', 'continue_with_partial_files', 'long_line', 'raw_random', 'truncated', 'odd_location',
+PROBES = {'C09': ['layer.http', 'layer.web', 'layer.robots', 'layer.ftp', 'layer.crawl', 'robots_redirected_to_other_origin', 'crawl_with_warc', 'crawl_post_data', 'redirect_to_directory_of_same_name', 'crawl_ftp', 'ftp_symlinks', 'continue_with_partial_files', 'long_line', 'raw_random', 'truncated', 'odd_location',
                   'odd_cookie', 'cookie_flood', 'bad_compression', 'ftp_reply_mutated', 'ftp_listing_mutated', 'hostile_html', 'hostile_css', 'hostile_js',
                   'hostile_sitemap', 'hostile_robots', 'real_file_writer', 'per_url_error_seen', 'healthy_fetched_after_hostile', 'reset', 'stall']}
 INFO = {'C09': {
@@ -487,6 +487,18 @@ def layer_crawl(tape, r, tier):
                 src.inlines.append((res, res.url, 'css' if kind == 'css' else 'script'))
             else:
                 src.links.append((res, res.url))
+        # the classic redirect '/d1' -> '/d1/': with the default file writer the name 'HOST/d1' is chosen for the redirecting URL
+        # while a sibling worker may create the directory 'HOST/d1/' for a page below it
+        dirs = [pg for pg in pages if pg.path.endswith('/') and pg.path != '/' and pg.query is None and pg.origin.key() == main.key()]
+        if dirs and tape.chance(1, 3, 'crawl.dir_redirect'):
+            dp = dirs[tape.draw(len(dirs), 'crawl.dir_redirect.which')]
+            if site.lookup(main.key(), dp.path.rstrip('/')) is None:
+                rr = site.add(main, dp.path.rstrip('/'), 'redirect')
+                rr.redirect_to = dp
+                rr.redirect_code = tape.choice((301, 302), 'crawl.dir_redirect.code')
+                rr.redirect_spelling = dp.path
+                starts[0].links.append((rr, rr.url))
+                r.probes['redirect_to_directory_of_same_name'] += 1
         with_post = tape.chance(1, 6, 'crawl.post')
         post_replayed = False
         if with_post:
